@@ -17,6 +17,7 @@ def run(res, work, tier, seed):
         vlib.tallycore(work, res, "C07: cycle || report loop (2 ticks) || root Close", deadlock=True,
                        Script="ScriptC07a", Passers="{}", Closers='{"z1"}', HasLoop="TRUE", MaxTicks=2, NObj=2)
     vlib.run_core_family(res, work, "c07", tier, seed, parts=6 if tier == "quick" else 12, clauses=CLAUSES, timeout=3400)
+    conc(res, work, tier, seed)
     from props import corestep
     corestep.run(res, work, tier, seed, "C07")   # step-level replay of the st-c07 scenarios through TallyCore.tla (drift, not a verdict)
     res.rule = ("executions of the real registry code under the controlled scheduler: DFS over the thread choices at the registry's lock hand-over "
@@ -30,6 +31,26 @@ def run(res, work, tier, seed):
         "an increment is 'promised' when it returned before Close of its scope object (or of the root) was called",
         "Go's writer-preferring RWMutex is not reproduced by gated schedules (a goroutine is only released into Lock when it is free); lock order is checked in the model",
     ]
+
+
+def conc(res, work, tier, seed):
+    """Free-running: several goroutines close one sub-scope handle at the same moment (the controlled scheduler cannot
+    interleave inside the unhooked window between the check and the set of a closed flag)."""
+    import os
+    out = os.path.join(work, "conc")
+    os.makedirs(out)
+    vlib.stage_specs(out)
+    vlib.run_vh(["c07conc", "-out", out, "-seed", seed, "-tier", tier], timeout=1800)
+    meta = vlib.read_meta(out)
+    trace = os.path.join(out, "trace.ndjson")
+    fails, r = vlib.tlc_trace(out, "TallyObsTrace.tla", "TallyObsTrace.cfg", trace, meta["events"], timeout=3000, boundary='"e":"scn"')
+    if r["violated"] or not r["consumed"]:
+        raise vlib.Infra("TallyObsTrace did not consume the c07conc trace: %s\n%s" % (r["violated"], r["out"][-2000:]))
+    res.add_trace_run("TallyObsTrace concurrent Close of one sub-scope (free-running)", r, meta["cases"], meta["events"])
+    res.states += r["distinct"]; res.transitions += r["generated"]
+    lines = vlib.read_lines(trace)
+    res.judge_fails([f for f in fails if f[1] in CLAUSES], lines, lambda ln: vlib.case_context(lines, max(ln, 1), lambda s: '"e":"scn"' in s, max_lines=30))
+    res.evaluations += meta["evals"]
 
 
 def registry_keys(res, work, tier):
